@@ -7,9 +7,15 @@
 (*   id    run number                                                      *)
 (*   mode, st (0/1 sticky), p (piece; -1 = random re-chunking), k (cap)    *)
 (*         the behaviour the instrumented writer was asked to show         *)
-(*   off, acc, err   the log of the Write calls the writer received, in    *)
-(*         order: bytes offered, bytes accepted, and err[j] = j if call j  *)
-(*         returned an error (each call returns its own error value) or 0  *)
+(*   ifs   the optional interfaces the instrumented writer implements      *)
+(*         beside io.Writer (subset of StringWriter, ByteWriter,           *)
+(*         ReaderFrom), as Go's type assertions see it                     *)
+(*   via, off, acc, err   the log of the calls the writer received through *)
+(*         ANY of its methods, in order: method (0 Write, 1 WriteString,   *)
+(*         2 WriteByte, 3 ReadFrom), bytes offered, bytes accepted, and    *)
+(*         err[j] = j if call j returned an error (each call returns its   *)
+(*         own error value) or 0.  All laws are evaluated over this log,   *)
+(*         i.e. over every method through which bytes can reach the writer *)
 (*   n, e  what WriteTo returned: n, and e = 0 for nil, j if the returned  *)
 (*         error IS the value call j returned, -1 for any other error      *)
 (*   dlen, lcp, slen   bytes that reached the sink, length of their common *)
@@ -18,8 +24,9 @@
 (*   h     position of the call in a history of back-to-back calls made by *)
 (*         one goroutine (1: the failing call, 2: the call after it; 0:    *)
 (*         main loop, where every call also follows other calls)           *)
-(*   bc    number of Write calls of the very first WriteTo of the process  *)
-(*         on this module (to a never-failing writer)                      *)
+(*   bc    number of calls the writer received in the first WriteTo of the *)
+(*         process on this module to a never-failing writer with the same  *)
+(*         interface set                                                   *)
 (* Every row is judged as a FIRST call: the required outcome depends on    *)
 (* the module and the writer only, so a call that inherits state from an   *)
 (* earlier one (Writer.tla, FreshPerCall = FALSE) breaks FirstError /      *)
@@ -53,8 +60,10 @@ N == Len(Trace)
 BlockSize == 512
 NB == (N + BlockSize - 1) \div BlockSize
 
+Ifs(r) == {r.ifs[i] : i \in DOMAIN r.ifs}
+Method(v) == <<"Write", "WriteString", "WriteByte", "ReadFrom">>[v + 1]
 Writer0(r) == [mode |-> r.mode, sticky |-> r.st = 1, piece |-> IF r.p < 0 THEN 0 ELSE r.p,
-               cap |-> r.k, cap0 |-> r.k, failed |-> FALSE, src |-> 0]
+               cap |-> r.k, cap0 |-> r.k, failed |-> FALSE, src |-> 0, ifs |-> Ifs(r)]
 
 \* fold the log: implementation state f, observer o, writer model wr, equipment flag ok
 RECURSIVE Fold(_, _, _, _, _, _)
@@ -64,9 +73,10 @@ Fold(r, j, f, o, wr, ok) ==
            m  == W!Resp(wr, sz)
        IN Fold(r, j + 1,
                W!FwStep(f, j, sz, acc, fail),
-               W!ObsStep(o, sz, acc, fail, 0),
+               W!ObsStepM(o, Method(r.via[j]), sz, acc, fail, 0),
                [wr EXCEPT !.cap = m.cap, !.failed = m.failed],
-               ok /\ r.err[j] \in {0, j} /\ acc >= 0 /\ acc <= sz /\ m.acc = acc /\ m.fail = fail)
+               ok /\ r.err[j] \in {0, j} /\ acc >= 0 /\ acc <= sz /\ m.acc = acc /\ m.fail = fail
+                  /\ (r.via[j] = 2 => sz = 1))
 
 Folded(r) == Fold(r, 1, W!FwInit, W!ObsInit, Writer0(r), TRUE)
 Summary(r, x) == [n |-> r.n, err |-> r.e, calls |-> x.obs.calls, failedAt |-> x.obs.failedAt,
@@ -78,7 +88,8 @@ RowOK(r) ==
   LET x == Folded(r)
       s == Summary(r, x)
       honest == r.mode # "silent"
-      equipment == /\ x.ok /\ Len(r.acc) = Len(r.off) /\ Len(r.err) = Len(r.off)
+      equipment == /\ x.ok /\ Len(r.acc) = Len(r.off) /\ Len(r.err) = Len(r.off) /\ Len(r.via) = Len(r.off)
+                   /\ Ifs(r) \subseteq W!AllIfaces /\ x.obs.methods \subseteq W!MethodsOf(Ifs(r))
                    /\ r.dlen = x.obs.accepted
                    /\ (honest => W!FailsAtCapacityP(s, Writer0(r)))
       laws == << <<"CountExact", W!CountExactP(s)>>,
@@ -87,7 +98,8 @@ RowOK(r) ==
                  <<"PrefixDelivered", honest => W!PrefixDeliveredP(s)>>,
                  <<"NoFailEqualsString", honest => W!NoFailEqualsStringP(s)>>,
                  \* a call is a function of the module and the writer, not of what was called before: a
-                 \* never-failing writer sees the very Writes the first WriteTo of the process made
+                 \* never-failing writer sees the very calls the first WriteTo of the process to a writer
+                 \* with these interfaces made
                  <<"SameWritesAsFirstCall", r.mode = "never" => Len(r.off) = r.bc>> >>
       broken == {laws[i][1] : i \in {i \in 1..Len(laws) : ~laws[i][2]}}     \* all of them, not only the first
       predicted == r.n = x.fw.n /\ r.e = x.fw.err
